@@ -368,7 +368,12 @@ Section Spec.
     && forallb (fun k => mem_str k (keys vals)) (union_keys g)
     && forallb (fun kv => mem_str (fst kv) (union_keys g)
                           && match expected_value prem g (fst kv) with
-                             | Some (Ok v) => value_seqb v (snd kv)
+                             | Some (Ok v) =>
+                                 value_seqb v (snd kv)
+                                 (* summarize_premium=False: the property allows ANY existing cell's value
+                                    (the code, and the model, take the first cell's) *)
+                                 || (negb prem && mem_str (fst kv) nl
+                                     && existsb (fun c => value_seqb (getv (fst kv) c) (snd kv)) g)
                              | _ => false
                              end) vals.
   Definition summ_spec_b (prem : bool) (t : list cell) (out : list cell) : bool :=
